@@ -32,6 +32,7 @@ type hOpts struct {
 	QTimeout time.Duration
 	TTimeout time.Duration
 	Env      []string
+	Tools    []string
 }
 
 // hTest: the property is a Go test package inside the harness module /verif/h; it is compiled
@@ -53,6 +54,15 @@ func hTest(pkg, run string, o hOpts) func(id, tier string, seed int64, replay st
 				return nil, fmt.Errorf("go %v failed:\n%s", args, tail(out, 40))
 			}
 		}
+		env := append([]string{}, o.Env...)
+		for _, tool := range o.Tools { // commands of /repo the check drives through their CLI, built from the working tree
+			p, err := buildTool(tool)
+			if err != nil {
+				return nil, err
+			}
+			env = append(env, "VERIF_TOOL_"+tool+"="+p)
+		}
+		o.Env = env
 		shards, to := o.QShards, o.QTimeout
 		if tier == "thorough" {
 			shards, to = o.TShards, o.TTimeout
